@@ -1495,6 +1495,12 @@ func (self *Analyzer) matchExpression(node pAst.MatchExpression) ast.AnalyzedMat
 		})
 	}
 
+	// Without a default arm, the match completes (yielding nothing) whenever no arm is taken:
+	// it does not diverge even if every one of its arms does.
+	if defaultArm == nil && resultType.Kind() == ast.NeverTypeKind {
+		resultType = ast.NewNullType(node.Range)
+	}
+
 	// create an error if the result type is != unknown and there is no default branch
 	lastSpan := node.Span()
 	if len(node.Arms) > 0 {
